@@ -35,6 +35,8 @@ var (
 	flagBudget = flag.Duration("budget", 0, "internal deadline (0 = tier default)")
 	flagDebugLeak = flag.Bool("debug-leak", false, "debug: count inotify instances of a Core")
 	flagOnly   = flag.String("only", "", "debug: only cases whose label contains this text")
+	flagLive   = flag.String("live", "on", "live-state family: on | off | only (debug)")
+	flagLiveDump = flag.Bool("live-dump", false, "debug: print the answer to every case of the live-state family")
 )
 
 type caseInfo struct {
@@ -159,8 +161,6 @@ func main() {
 	if *flagBudget > 0 {
 		budget = *flagBudget
 	}
-	deadline := time.Now().Add(budget)
-
 	ds := deltas()
 	defG, defP := confDefaults()
 
@@ -316,7 +316,10 @@ func main() {
 		"alternative values covering all %d global parameters of conf.Conf (reflection-checked) plus path-default and path edits: "+
 		"all single changes in both directions through both reload routes; pairs (quick: those with an in-place reloadable change; "+
 		"thorough: all), thorough also A->B->A chains and triples inside a component group; "+
-		"distinct = (set of recreated components, set of components whose observation changed) classes", len(ds), len(confParamNames()))
+		"distinct = (set of recreated components, set of components whose observation changed) classes; "+
+		"live-state family: %d configuration pairs that create/remove/recreate/reconfigure a component deriving state from live streams "+
+		"x %d client histories x reload routes, real RTSP clients, state shown by the HTTP interfaces after the reload vs. a fresh Core with the "+
+		"same clients (distinct = recreated components, client fates and derived state)", len(ds), len(confParamNames()), len(livePairs()), len(liveModes))
 
 	// run, in chunks so that the deadline ends the enumeration cleanly
 	type outcome struct {
@@ -396,6 +399,17 @@ func main() {
 		}
 		return out
 	}
+	// ---- the live-state family (live.go): a fixed small table, always completed; the budget of the enumeration
+	// below starts afterwards
+	var liveFindings []liveFinding
+	if *flagLive != "off" {
+		liveFindings = runLiveFamily(r, pool, *flagOnly, fail)
+	}
+	if *flagLive == "only" {
+		cases = nil
+	}
+	deadline := time.Now().Add(budget)
+
 	// determinism discipline: the first case is run twice and must give the same observation
 	if len(cases) > 0 {
 		two := runCases([]*caseInfo{cases[0], cases[0]})
@@ -623,6 +637,15 @@ func main() {
 			"base": f.ci.base, "change": f.ci.names, "old": f.ci.c.Old, "new": f.ci.c.New, "route": f.ci.c.Route, "steps": f.ci.c.Steps,
 			"how": "start mediamtx with `old` (@A<k>@/@I<k>@ = free loopback ports), apply `steps` through the Control API (route api) or write `new` to the configuration file (route file), compare the components with a fresh start on `new`"})
 	}
+	for _, f := range liveFindings {
+		r.Violation(f.key, f.what, map[string]any{
+			"pair": f.li.c.Pair, "mode": f.li.c.Mode, "route": f.li.c.Route, "old": f.li.c.Old, "new": f.li.c.New, "patch": f.li.c.Patch,
+			"how": "start mediamtx with `old` (@L<k>@ = free loopback ports, @LDIR@ = a directory), publish H264 over RTSP/TCP to the path `live` " +
+				"(mode pub+reader: also read it over RTSP; mode pub-left: disconnect the publisher again), write `new` to the configuration file " +
+				"(route file) or send `patch` to PATCH /v3/config/global/patch (route api), let the clients that were disconnected connect again, " +
+				"and compare /v3/paths/list, /v3/hlsmuxers/list, the protocol lists, /v3/recordings/get/live, /metrics and the playback /list " +
+				"with a second mediamtx started with `new` to which the same clients connected"})
+	}
 	pool.Close()
 
 	kinds := map[string]int{}
@@ -671,9 +694,12 @@ func main() {
 		"a component = a pointer field of core.Core; its parameters = its plain-data fields (strings, numbers, booleans, slices, maps, internal/conf structs) and the components its pointer/interface fields refer to, read by reflection after a barrier through Core.run and the path manager loop",
 		"recreating any component together with the logger is accepted (every component logs through Core's logger)",
 		"one or two alternative values per parameter; listeners move to 127.0.0.2 on the same port; syslog, JWT/HTTP auth servers and real clients are outside the alphabet",
-		"client connections are not probed: 'keeps running' is decided by instance identity",
+		"main family: client connections are not probed, 'keeps running' is decided by instance identity",
+		"live-state family: one H264 RTSP/TCP publisher (and one RTSP/TCP reader) on one static path; the derived state is what the Control API, " +
+			"the metrics and the playback server show (identifiers, times and traffic counters left out); a difference must persist for 12 s of rounds; " +
+			"'absent' facts (no new recording segment, no muxer) are judged once 8 further frames were written and the positive wait conditions hold on both sides",
 	}
-	if len(states) < 4 && *flagOnly == "" {
+	if len(states) < 4 && *flagOnly == "" && *flagLive != "only" {
 		fail("vacuous: only %d distinct reload classes", len(states))
 	}
 	pool.Close()
